@@ -123,7 +123,9 @@ def decodeRaw (u : Uni) : Seq → Key
     | none =>
       let kc : Int := if b = 0 then 64 else if b ≤ 0x1A then b + 0x60 else if b < 0x20 then b + 0x40 else 0
       { keycode := kc, mods := ModCtrl }
-  | .esc final => { keycode := final, mods := ModAlt }
+  | .esc final =>
+    if u.isUpper final then { keycode := u.toLower final, shifted := final, mods := ModAlt ||| ModShift }
+    else { keycode := final, mods := ModAlt }
   | .ss3 b =>
     match lookup b ss3Keys with
     | some k => { keycode := k }
@@ -205,6 +207,10 @@ def matchString (u : Uni) (k : Key) (tgt : Str) : Bool :=
     let vals := splitOn 43 tgt
     let mods := vals.dropLast
     let key := vals.getLastD []
+    -- the key is '+' itself ("Ctrl++"): the last two fields are empty
+    let plus : Bool := key = [] ∧ vals.length > 2 ∧ mods.getLastD [0] = []
+    let mods := if plus then mods.dropLast else mods
+    let key := if plus then [43] else key
     let mask := parseMods u mods
     match key with
     | [] => «matches» u k 0xFFFD mask      -- DecodeRuneInString("") = (RuneError, 0) and 0 == len("")
